@@ -47,6 +47,7 @@ type g struct {
 	solo       []string                 // names of single-validation types (validation profile)
 	chain      []string                 // outer aliases of alias chains whose validations sit on the innermost alias
 	catchAll   map[string]*catchAllInfo // service -> first catch-all route
+	inlinePair map[*spec.Method]bool    // methods whose first two errors are an inline-typed pair sharing a status
 	lastPrefix string
 	// unions (union.go): own PRNG stream, the design-level decision, names in use, member types, holder type
 	ur          *vc.Rand
